@@ -215,7 +215,12 @@ static char *emit_mu_state (struct emit_buf *b, nsync_mu *mu,
                 emit_waiters (b, mu->waiters);
         }
         if (acquired) {
-                ATM_STORE_REL (&mu->word, word); /* release store */
+                /* Other threads may have changed *mu's other bits while
+                   the spinlock was held, so clear only MU_SPINLOCK.  */
+                uint32_t old_word = ATM_LOAD (&mu->word);
+                while (!ATM_CAS_REL (&mu->word, old_word, old_word & ~MU_SPINLOCK)) {
+                        old_word = ATM_LOAD (&mu->word);
+                }
         }
         emit_c (b, 0);
         IGNORE_RACES_END ();
